@@ -35,6 +35,34 @@ P["C03"] = dict(
     design_ref="3 ERR, 4 C03",
 )
 
+P["C02"] = dict(
+    text="Structural necessary conditions of 'a success is a confirmed fixed point', decided on all paths of the two iteration drivers and the seven stateful resolvers: (FIX1) every result-delivering return of resolve_iteratively and of the asm-block driver is dominated by a pass run with is_last_iteration = true (no guessing) and by the success edge of that pass; (FIX2) each resolver that keeps a value between passes loads the previous value before storing the new one, compares them, and on the `differs` edge can only return Unresolved or Err, every other Resolved being behind the `unchanged` edge or an audited shortcut; (FIX3) `resolved = true` is stored only under optimize_statically_known && <item>_statically_known (&& is_first_iteration, && single match for instructions); (ERR3) an unstable value in a last pass pushes an error. Removing any of these lets a stale guess be emitted or a non-converged run succeed.",
+    note="Decides the structure that makes the fixed point genuine, not that the solution found is the smallest consistent encoding for every program (value-level). BigInt equality ignores the size field, so size-only changes are detected through the labels that follow (documented upstream behaviour).",
+    technique="static analysis: dominance / edge-dominance over MIR, happens-before of field load vs store, comparison-operand provenance, control-dependence of shortcut stores",
+    design_ref="3 FIX, 4 C02",
+)
+
+P["C09"] = dict(
+    text="Static shape check of the iteration budget: the pass counter starts at 0 and is only incremented by 1 behind `iter_count < max_iterations`, the value returned is the counter itself, the first/last flags are exactly iter_count == 1 / == max_iterations in both drivers, the confirming pass runs with constant flags (false, true), max_iterations is read by no function other than the audited three (so it can bound the number of passes but not enter any value), assertions are evaluated only behind is_last_iteration, `--iters 0` is rejected, and FIX1 (a result is only delivered after a no-guess pass).",
+    note="Decides that the budget can only influence whether a confirmed result is reached, through the who-reads audit and the loop shape. Not decided: that two different budgets reach the same fixed point when several exist (behavioural).",
+    technique="static analysis: def-use of the loop counter, who-reads audit of a field, dominance checks",
+    design_ref="3 FIX4, 4 C09",
+)
+
+P["C08"] = dict(
+    text="Static audit of everything the two --debug-no-optimize-* switches can influence: (GATE) every function that touches either switch is in an audited list (a new read site is reported); (FIX3) items are frozen as resolved only under the static-known conjunction; (SK) is_value_statically_known is decided per Expr variant by a path search: a variant may be reported known only as a literal, through the provider's answer, or when every child operand was confirmed known on that path, never for asm blocks, with an exhaustive match; (TAB-idx) the rule-prefix index is a sound over-approximation of the full scan only if writer, reader and matcher normalise alike: same lower-casing, same cap, same token admission predicate, every prefix length probed, same skipping of blanks, same exclusion of sub-rule blocks, and match_instr shares dedup and the literal-part filter between both paths.",
+    note="Decides the soundness conditions of both optimisations structurally; equality of outputs for all programs is differential and not claimed. Known finding: the index reader stops at blanks the matcher skips (see known_findings.json).",
+    technique="static analysis: who-touches audit, path search with per-child confirmation state, constant/callee agreement between sibling functions",
+    design_ref="3 TAB-idx/FIX3, 4 C08",
+)
+
+P["C07"] = dict(
+    text="Static agreement check of the code that makes matching insensitive to case, spacing and rule order: pattern characters are stored lower-cased and compared with eq_ignore_ascii_case (never primitive ==), literal parts are matched through the blank/comment-skipping cursor, whitespace parts test a Whitespace token, the prefix index lower-cases and admits tokens exactly like the pattern parser, and candidate selection is by duplicate removal plus maximum literal-part count (keyed on exact_part_count), with no use of list position.",
+    note="Decides these necessary conditions; invariance of the whole pipeline under re-rendering is metamorphic and not claimed. Known finding: blanks inside the first four literal characters defeat the prefix index (known_findings.json).",
+    technique="static analysis: callee/constant agreement between sibling functions over MIR, enum-arm extraction",
+    design_ref="3 TAB-idx, 4 C07",
+)
+
 NA_PENDING = "check not built yet (build in progress, see DESIGN.md section 9)"
 
 
